@@ -325,10 +325,10 @@
             (dst (make-bytevector
                   (arithmetic-shift (quotient encode-src-length 3) 2))))
         (let lp ()
-          (let ((n (read-bytevector! src in 0 2048)))
+          (let ((n (read-bytevector! src in 0 encode-src-length)))
             (base64-encode-bytevector! src 0 n dst)
             (write-bytevector dst out 0 (* 4 (quotient (+ n 2) 3)))
-            (if (= n 2048)
+            (if (= n encode-src-length)
                 (lp)
                 (flush-output-port out)))))))))
 
